@@ -1,7 +1,7 @@
 // Kani harnesses for crates/liwe/src/markdown/reader.rs (child module: sees private items).
 // Included by the hook line `#[cfg(kani)] #[path = "/verif/kani/reader.rs"] mod verif_kani;`.
 // Each harness runs the REAL to_line_range / to_inline_range on a line table of fixed length n
-// whose entries and the queried offsets are fully symbolic (no well-formedness assumed):
+// whose entries and the queried offsets are fully symbolic (any strictly increasing table that starts at 0):
 // complete for that n, bounded over n.
 use super::*;
 
@@ -26,6 +26,16 @@ fn last_le(ls: &[usize], o: usize) -> (usize, bool) {
     (k, found)
 }
 
+// the tables the property is about: what line_starts produces (0 first, strictly increasing)
+fn assume_line_table(ls: &[usize]) {
+    kani::assume(ls[0] == 0);
+    let mut i = 1;
+    while i < ls.len() {
+        kani::assume(ls[i - 1] < ls[i]);
+        i += 1;
+    }
+}
+
 macro_rules! positions_harness {
     ($line:ident, $inline:ident, $n:expr) => {
         #[kani::proof]
@@ -34,6 +44,7 @@ macro_rules! positions_harness {
             let ls: [usize; $n] = kani::any();
             let a: usize = kani::any();
             let b: usize = kani::any();
+            assume_line_table(&ls);
             let r = reader_with(&ls);
             let out = r.to_line_range(a..b);
             let (s, _) = last_le(&ls, a);
@@ -48,6 +59,7 @@ macro_rules! positions_harness {
             let ls: [usize; $n] = kani::any();
             let a: usize = kani::any();
             let b: usize = kani::any();
+            assume_line_table(&ls);
             let r = reader_with(&ls);
             let out = r.to_inline_range(a..b);
             let (s, sf) = last_le(&ls, a);
